@@ -40,6 +40,31 @@ def cases(tier, seed):
         flow = dict(alpha=float(np.round(rng.uniform(-4, 10), 2)), beta=0.0, v=float(rng.uniform(50, 260)), rho=float(rng.uniform(0.3, 1.2)),
                     Mach_number=float(np.round(rng.uniform(0.5, 0.9), 3)), re=1e6, cg=[float(np.round(rng.uniform(-1, 3), 3)), 0.0, float(np.round(rng.uniform(-1, 1), 3))])
         out.append(dict(kind="aero", surfaces=surfs, flow=flow, compressible=bool(k % 4 == 3), sref=(float(np.round(rng.uniform(5, 60), 2)) if k % 5 == 2 else None), _cost=4 * ns))
+    # the same twins with the meshes routed through Geometry and scalar / single-control-point design variables active (the value of a
+    # design variable means the same wing whether half of it or all of it is modelled); left halves rooted at y=0 only (C07/C13 findings)
+    n = 12 if tier == "quick" else 300
+    for k in range(n):
+        ns = int(rng.choice([1, 1, 2]))
+        surfs = []
+        for s in range(ns):
+            spec = M.random_spec(rng, half="left", nx=int(rng.integers(2, 4)), ny=int(rng.integers(2, 7)))
+            spec["offset"] = [float(np.round(s * rng.uniform(3, 8), 3)), 0.0, float(np.round(s * rng.uniform(0.3, 1.5), 3))]
+            spec["camber"] = 0.0
+            sd = dict(name="s%d" % s, symmetry=True, mesh=spec, with_viscous=bool(k % 2), with_wave=False, k_lam=0.05, CL0=0.0, CD0=0.0,
+                      S_ref_type="projected" if k % 5 == 4 else "wetted", t_over_c_cp=[float(np.round(rng.uniform(0.08, 0.15), 3))])
+            pool = dict(taper=lambda: float(np.round(rng.uniform(0.3, 1.6), 3)), sweep=lambda: float(np.round(rng.uniform(-25, 35), 2)),
+                        dihedral=lambda: float(np.round(rng.uniform(-8, 12), 2)), span=lambda: float(np.round(spec["span"] * rng.uniform(0.7, 1.4), 3)),
+                        twist_cp=lambda: [float(np.round(rng.uniform(-4, 6), 2))], chord_cp=lambda: [float(np.round(rng.uniform(0.6, 1.5), 3))],
+                        xshear_cp=lambda: [float(np.round(rng.uniform(-1, 1), 3))], zshear_cp=lambda: [float(np.round(rng.uniform(-1, 1), 3))])
+            keys = sorted(pool)
+            for q in rng.choice(keys, size=int(rng.integers(1, 4)), replace=False):
+                sd[str(q)] = pool[str(q)]()
+            if k % 4 == 0:
+                sd["taper"] = pool["taper"]()
+            surfs.append(sd)
+        flow = dict(alpha=float(np.round(rng.uniform(-4, 10), 2)), beta=0.0, v=float(rng.uniform(50, 260)), rho=float(rng.uniform(0.3, 1.2)),
+                    Mach_number=float(np.round(rng.uniform(0.3, 0.8), 3)), re=1e6, cg=[float(np.round(rng.uniform(-1, 3), 3)), 0.0, float(np.round(rng.uniform(-1, 1), 3))])
+        out.append(dict(kind="aero", geom=True, surfaces=surfs, flow=flow, compressible=bool(k % 4 == 3), sref=None, _cost=5 * ns))
     n = 12 if tier == "quick" else 270
     for k in range(n):
         fem = "tube" if k % 2 else "wingbox"
@@ -91,13 +116,22 @@ def half_slice(F_full, ny_half, left):
 
 def run_aero(c, o):
     surfs = c["surfaces"]
-    H = zoo.build_aero(dict(surfaces=surfs, flow=c["flow"], compressible=c["compressible"], S_ref_total=c.get("sref")), geom=False)
+    geom = bool(c.get("geom", False))
+    H = zoo.build_aero(dict(surfaces=surfs, flow=c["flow"], compressible=c["compressible"], S_ref_total=c.get("sref")), geom=geom)
     zoo.run(H)
     tw = twin_surfaces(surfs)
     clean = [{k: v for k, v in s.items() if not k.startswith("_")} for s in tw]
-    F = zoo.build_aero(dict(surfaces=clean, flow=c["flow"], compressible=c["compressible"], S_ref_total=c.get("sref")), geom=False)
+    F = zoo.build_aero(dict(surfaces=clean, flow=c["flow"], compressible=c["compressible"], S_ref_total=c.get("sref")), geom=geom)
     zoo.run(F)
-    base_tags = ["compressible" if c["compressible"] else "incompressible", "nsurf=%d" % len(surfs)]
+    base_tags = ["compressible" if c["compressible"] else "incompressible", "nsurf=%d" % len(surfs)] + (["geometry_dvs"] if geom else [])
+    if geom:
+        for s in surfs:
+            mh = zoo.get(H, s["name"] + ".mesh")
+            mf = zoo.get(F, s["name"] + ".mesh")
+            dvs = sorted(k_ for k_ in s if k_ in ("taper", "sweep", "dihedral", "span", "twist_cp", "chord_cp", "xshear_cp", "zshear_cp"))
+            o.close("aero/geometry_mesh", mh, mf[:, : mh.shape[1]], rtol=1e-11, scale=np.abs(mh).max(), tags=base_tags + dvs,
+                    what="mesh of the half model vs the left half of the full-span mesh, design variables %s" % dvs)
+            o.close("aero/geometry_mesh", M.mirror(mf), mf, rtol=1e-11, scale=np.abs(mh).max(), tags=base_tags + dvs, what="full-span mesh with design variables %s is mirror symmetric" % dvs)
     anyoff = any(abs(float(s["mesh"].get("root_y", 0.0))) > 0 for s in surfs)
     if anyoff:
         base_tags.append("some_root_off_y0")
@@ -217,7 +251,18 @@ def run_as(c, o):
     o.close("as/vonmises", vh, vf[: nyh - 1], rtol=R, what="von Mises on the modelled half")
     o.close("as/structural_mass", zoo.get(H, "wing.structural_mass"), zoo.get(F, "wing.structural_mass"), rtol=1e-11)
     o.close("as/cg", zoo.get(H, "wing.cg_location"), zoo.get(F, "wing.cg_location"), rtol=1e-11, scale=np.abs(m).max())
-    o.close("as/total_cg", g(H, "cg"), g(F, "cg"), rtol=R, scale=np.abs(m).max())
+    # Breguet exponent a = R CT / (v L/D): fuel burn = W (exp(a) - 1) amplifies a relative state error by a, and has a pole at L/D -> 0+
+    # (there the outputs computed from it - total cg, moment about that cg, L = W residual - are outside the performance model's domain)
+    fl = dict(zoo.AS_FLOW_DEFAULT)
+    fl.update(c["flow"])
+    with np.errstate(all="ignore"):
+        ld_ = float(np.ravel(g(H, "CL"))[0]) / float(np.ravel(g(H, "CD"))[0])
+        a_br = fl["R"] * fl["CT"] / (fl["v"] * ld_) if ld_ > 0 else float("inf")
+    in_domain = bool(np.isfinite(a_br) and a_br < 30.0)
+    if in_domain:
+        o.close("as/total_cg", g(H, "cg"), g(F, "cg"), rtol=R, scale=np.abs(m).max())
+    else:
+        o.count("cases_outside_breguet_domain_fuelburn_cg_CM_not_compared")
     wave = bool(sd["with_wave"])
     wh = float(np.ravel(g(H, "wing_perf.CDw"))[0])
     wf = float(np.ravel(g(F, "wing_perf.CDw"))[0])
@@ -225,8 +270,10 @@ def run_as(c, o):
     o.close("as/CD", float(np.ravel(g(H, "CD"))[0]) - wh, float(np.ravel(g(F, "CD"))[0]) - wf, rtol=R, atol=1e-12, what="CD (wave part removed)")
     # fuel burn and the lift-equals-weight residual depend on the total CD, wave part included
     for q in ("fuelburn", "L_equals_W"):
-        o.close("as/" + q, g(H, q), g(F, q), rtol=R, atol=1e-12, tags=[q] + (["depends_on_CDw"] if wave and (wh > 0 or wf > 0) else []))
-    o.close("as/CM", g(H, "CM"), g(F, "CM"), rtol=R, atol=1e-9)
+        if in_domain:
+            o.close("as/" + q, g(H, q), g(F, q), rtol=R * (1.0 + a_br), atol=1e-12, tags=[q] + (["depends_on_CDw"] if wave and (wh > 0 or wf > 0) else []))
+    if in_domain:
+        o.close("as/CM", g(H, "CM"), g(F, "CM"), rtol=R, atol=1e-9)
     for q in ("CDi", "CDv", "CDw", "CL1"):
         vh_, vf_ = float(np.ravel(g(H, "wing_perf." + q))[0]), float(np.ravel(g(F, "wing_perf." + q))[0])
         o.close("as/surface_" + q, vh_, vf_, rtol=R, atol=1e-13, tags=[q], ratio=(vh_ / vf_ if vf_ else None))
